@@ -1,17 +1,17 @@
 """C10 — observers see every dispatch once, in order, after it took effect."""
-from . import session
+from . import gen, session
 from .framework import Failure
 from .sessioncheck import SessionCheck
 
-SINGLETON = {0: True, 1: True, 2: True, 3: True, 4: True, 5: False, 6: False}
+SINGLETON = {0: True, 1: True, 2: True, 3: True, 4: True, 5: False, 6: False, 7: False, 8: True}
 
 
 class C10(SessionCheck):
     pid = "C10"
     inst_kwargs = dict(allow_empty_jobs=True)
     gen_kwargs = dict(p_invalid=0.1, p_query=0.1, p_reset=0.05, p_snapshot=1.0, p_obs=0.25,
-                      start_observers_choices=[0, 1, 2, 3, 4, 5, 5, 6, 6], max_events=70, p_cog=0.45,
-                      obs_kinds=(0, 1, 2, 3, 4, 5, 5, 6, 6, 6), p_leave=0.06)
+                      start_observers_choices=[0, 1, 2, 3, 4, 5, 5, 6, 6, 7, 8], max_events=70, p_cog=0.45,
+                      obs_kinds=(0, 1, 2, 3, 4, 5, 5, 6, 6, 6, 7, 7, 8), p_leave=0.06)
     assumptions = ["valid instance: durations >= 0",
                    "observer objects are identified by creation order; a custom recording observer class (harness side) "
                    "records what the dispatcher shows at the moment of each notification"]
@@ -74,7 +74,7 @@ class C10(SessionCheck):
             ok = bool(o) and o[0] == 0
             if t == 3:
                 k = ev[1]
-                must_fail = SINGLETON[k] and any(kinds[s] == k for s in subs if s < len(kinds))
+                must_fail = SINGLETON[k] and any(gen.is_instance(k, kinds[s]) for s in subs if s < len(kinds))
                 if must_fail and ok:
                     fails.append(Failure("oracle", "singleton", f"event #{i}: a second singleton observer of kind {k} "
                                          f"was subscribed"))
@@ -90,7 +90,8 @@ class C10(SessionCheck):
             elif t == 6:
                 k = ev[1]
                 allowed = set(ev[2][0]) if len(ev) > 2 and ev[2] else None
-                cands = [s for s in subs if s < len(kinds) and kinds[s] == k and (allowed is None or s in allowed)]
+                cands = [s for s in subs if s < len(kinds) and gen.is_instance(k, kinds[s])
+                         and (allowed is None or s in allowed)]
                 if ok:
                     if cands:
                         if o[1] != cands[0]:
@@ -109,7 +110,7 @@ class C10(SessionCheck):
                                 hist_ok[o[1]] = [] if not accepted else None
                 elif cands:
                     fails.append(Failure("oracle", "create-or-get", f"event #{i}: raised although object {cands[0]} matches"))
-                elif SINGLETON[k] and any(kinds[s] == k for s in subs if s < len(kinds)):
+                elif SINGLETON[k] and any(gen.is_instance(k, kinds[s]) for s in subs if s < len(kinds)):
                     pass    # a singleton of the class is subscribed but excluded by the condition: constructor refuses
             elif t == 4 and ok:
                 if ev[1] in subs:
